@@ -25,8 +25,13 @@
 (* configurations, so a Delay ends with the next tick, and an error state   *)
 (* of Transport::run is "fresh" until the next tick.                        *)
 (*                                                                          *)
-(* Not modelled: redundant and load_balancer; Shutdown; the stream          *)
-(* connection's own response / idle timers (configured beyond the horizon). *)
+(* The stream connections run under the stream::Config part of the          *)
+(* multi_stream configuration: a connection with requests outstanding and   *)
+(* no message from the peer for the stream response timeout fails (every    *)
+(* outstanding request gets an error); one without requests is closed after *)
+(* the idle timeout.  A request that multi_stream gave up on keeps its slot *)
+(* on the connection (`cnt`) until the connection ends.                     *)
+(* Not modelled: Shutdown.                                                  *)
 EXTENDS ClientDgram, FiniteSets
 
 (*                                                                          *)
@@ -39,7 +44,11 @@ CONSTANTS MReqs,     \* request numbers, e.g. 1..2
 NoReq == [st |-> "none", el |-> 0, cnt |-> 0, cid |-> -1, on |-> 0, q |-> 0]
 
 \* the configuration in force after script sc: rt = response timeout in ticks
-MConfOf(sc) == LET eff == MsRun(sc) IN [sc |-> sc, eff |-> eff, rt |-> TicksUp(eff.rt, TickMs)]
+\* strt / stidle: the stream connections' response / idle timeout in ticks
+\* (`elapsed > response_timeout`, `elapsed >= idle_timeout`)
+MConfOf(sc) == LET eff == MsRun(sc)
+               IN [sc |-> sc, eff |-> eff, rt |-> TicksUp(eff.rt, TickMs),
+                   strt |-> TicksOver(eff.st.rt, TickMs), stidle |-> TicksAt(eff.st.idle, TickMs)]
 MInitOf(sc) ==
   [conf |-> MConfOf(sc),
    reqs |-> [r \in MReqs |-> NoReq],
@@ -48,7 +57,9 @@ MInitOf(sc) ==
    connid |-> 0,
    connecting |-> 0,                      \* request whose NewConn is being served by connect()
    pendingc |-> FALSE,                    \* a connect() future is outstanding
-   conns |-> <<>>,                        \* [alive, out]: stream connections created
+   conns |-> <<>>,                        \* stream connections created: [alive, out (requests
+                                          \* written), cnt (slots taken), tk ("none" | "active" |
+                                          \* "idle": the timer running), e (its ticks)]
    nconnect |-> 0,
    done |-> [r \in MReqs |-> <<>>]]
 
@@ -70,6 +81,10 @@ MStartQuery(m, r, id, c) ==
   LET m1 == [m EXCEPT !.reqs[r].cid = id]
   IN IF m1.conns[c].alive
      THEN [m1 EXCEPT !.conns[c].out = Append(@, m1.reqs[r].q),
+                     !.conns[c].cnt = @ + 1,
+                     \* the response timer is started by the first request
+                     !.conns[c].tk = "active",
+                     !.conns[c].e = IF m1.conns[c].tk = "active" THEN @ ELSE 0,
                      !.reqs[r].st = "getresult", !.reqs[r].on = c]
      ELSE MFail(m1, r, TRUE)
 
@@ -118,7 +133,8 @@ MSubmitOp(m, r, qq) == [m EXCEPT !.reqs[r] = [NoReq EXCEPT !.st = "wantconn", !.
 
 MConnOkOp(m) ==
   LET c  == Len(m.conns) + 1
-      m1 == [m EXCEPT !.conns = Append(@, [alive |-> TRUE, out |-> <<>>]),
+      m1 == [m EXCEPT !.conns = Append(@, [alive |-> TRUE, out |-> <<>>, cnt |-> 0,
+                                            tk |-> "none", e |-> 0]),
                       !.cs = [k |-> "Some", c |-> c, fresh |-> FALSE],
                       !.pendingc = FALSE, !.connecting = 0]
   IN MConnReply(m1, m.connecting, TRUE, m1.connid, c)
@@ -130,21 +146,45 @@ MConnFailOp(m) ==
 
 Waiting(m, c) == {r \in MReqs : m.reqs[r].st = "getresult" /\ m.reqs[r].on = c}
 
-MReplyOp(m, c, r)  == MFinish(m, r, TRUE, "response")
-MWrongOp(m, c, r)  == MFinish(m, r, FALSE, "wrongreply")
+\* a message for request r on connection c: the slot is freed, the timer
+\* restarted; without requests the connection turns idle (idle timeout 0: it
+\* is closed at once)
+MConnMsg(m, c) ==
+  LET n == m.conns[c].cnt - 1
+  IN IF n > 0 THEN [m EXCEPT !.conns[c].cnt = n, !.conns[c].e = 0]
+     ELSE IF m.conf.stidle = 0
+          THEN [m EXCEPT !.conns[c].cnt = 0, !.conns[c].alive = FALSE, !.conns[c].tk = "none"]
+          ELSE [m EXCEPT !.conns[c].cnt = 0, !.conns[c].tk = "idle", !.conns[c].e = 0]
+MReplyOp(m, c, r)  == MConnMsg(MFinish(m, r, TRUE, "response"), c)
+MWrongOp(m, c, r)  == MConnMsg(MFinish(m, r, FALSE, "wrongreply"), c)
 
 RECURSIVE MFailAll(_, _)
 MFailAll(m, S) == IF S = {} THEN m
                   ELSE LET r == MinOf(S) IN MFailAll(MFail(m, r, FALSE), S \ {r})
-MCloseOp(m, c) == MFailAll([m EXCEPT !.conns[c].alive = FALSE], Waiting(m, c))
+MCloseOp(m, c) == MFailAll([m EXCEPT !.conns[c].alive = FALSE, !.conns[c].tk = "none"], Waiting(m, c))
 
+\* the stream connections' own timers, one tick
+RECURSIVE MConnTimers(_, _)
+MConnTimers(m, c) ==
+  IF c > Len(m.conns) THEN m
+  ELSE LET k  == m.conns[c]
+           m1 == IF ~k.alive \/ k.tk = "none" THEN m
+                 ELSE IF k.tk = "active" /\ k.e + 1 >= m.conf.strt THEN MCloseOp(m, c)
+                 ELSE IF k.tk = "idle" /\ k.e + 1 >= m.conf.stidle
+                      THEN [m EXCEPT !.conns[c].alive = FALSE, !.conns[c].tk = "none"]
+                 ELSE [m EXCEPT !.conns[c].e = @ + 1]
+       IN MConnTimers(m1, c + 1)
+
+\* (a request whose connection fails in this tick starts its back-off now:
+\* it is woken by the next tick)
 MTickOp(m) ==
+  MConnTimers(
   [m EXCEPT !.reqs = [r \in MReqs |->
                         IF Active(m, r)
                         THEN [m.reqs[r] EXCEPT !.el = @ + 1,
                                                !.st = IF @ = "delay" THEN "wantconn" ELSE @]
                         ELSE m.reqs[r]],
-            !.cs.fresh = FALSE]
+            !.cs.fresh = FALSE], 1)
 
 MMkOp(op, r, qq, c) == [op |-> op, r |-> r, q |-> qq, c |-> c]
 
@@ -157,6 +197,10 @@ MOpsOf(m) ==
                  <<c, r>> \in {cr \in (1..Len(m.conns)) \X MReqs : cr[2] \in Waiting(m, cr[1])}}
   \cup {MMkOp("close", 0, 0, c) : c \in {x \in 1..Len(m.conns) : m.conns[x].alive}}
   \cup (IF \E r \in MReqs : Active(m, r) THEN {MMkOp("tick", 0, 0, 0)} ELSE {})
+  \* time passing while nothing is asked matters to an idle connection only
+  \cup (IF (\A r \in MReqs : ~Active(m, r)) /\ (\E r \in MReqs : m.reqs[r].st = "none")
+           /\ (\E c \in 1..Len(m.conns) : m.conns[c].alive /\ m.conns[c].tk = "idle")
+        THEN {MMkOp("idle_tick", 0, 0, 0)} ELSE {})
 
 MEnvOp(m, o) ==
   CASE o.op = "submit"    -> MSubmitOp(m, o.r, o.q)
@@ -165,7 +209,7 @@ MEnvOp(m, o) ==
     [] o.op = "reply"     -> MReplyOp(m, o.c, o.r)
     [] o.op = "wrong"     -> MWrongOp(m, o.c, o.r)
     [] o.op = "close"     -> MCloseOp(m, o.c)
-    [] o.op = "tick"      -> MTickOp(m)
+    [] o.op \in {"tick", "idle_tick"} -> MTickOp(m)
 MApply(m, o) == MQuiesce(MEnvOp(m, o))
 
 --------------------------------------------------------------------------
@@ -193,6 +237,16 @@ MNoDupOf(m) ==
   \A c \in 1..Len(m.conns) : \A i, j \in 1..Len(m.conns[c].out) :
      i # j => m.conns[c].out[i] # m.conns[c].out[j]
 
+\* the stream connections: a live connection with slots taken has its
+\* response timer running and not overdue, an idle one its idle timer - the
+\* timeouts being the configured ones
+MConnsSoundOf(m) ==
+  \A c \in 1..Len(m.conns) :
+     LET k == m.conns[c]
+     IN /\ k.cnt >= Cardinality(Waiting(m, c)) /\ k.cnt <= Len(k.out)
+        /\ k.alive => /\ (k.cnt > 0 <=> k.tk = "active") /\ (k.tk = "active" => k.e < m.conf.strt)
+                       /\ (k.tk = "idle" => k.e < m.conf.stidle)
+        /\ ~k.alive => Waiting(m, c) = {}
 --------------------------------------------------------------------------
 (* dgram_stream: UDP first (ClientDgram), TCP (multi_stream, request 1) iff *)
 (* the UDP answer is truncated.                                             *)
